@@ -229,7 +229,7 @@ def execute(plan: dict) -> dict:
             'neighbors': sorted(conf.neighbors.keys()),
             'holds': {k: int(n.hold_time) for k, n in conf.neighbors.items()},
             'peers': sorted(w.reactor._peers.keys()),
-            'rep': {i: ({k: (LOCAL if v[0] == 'self' else v[0], v[1]) for k, v in RW.reported_table(w.peer_for(RW.PEER_IPS[i]).neighbor, False).items()} if w.peer_for(RW.PEER_IPS[i]) else None) for i in range(3)},
+            'rep': {i: ({k: ((LOCAL if v[0] == 'self' else v[0]),) + tuple(v[1:]) for k, v in RW.reported_table(w.peer_for(RW.PEER_IPS[i]).neighbor, False).items()} if w.peer_for(RW.PEER_IPS[i]) else None) for i in range(3)},
             'sess': {i: (speakers[i].established().index if speakers[i].established() else None) for i in range(3)},
             'tx': len(w.net.tx_log),
             'mono': w.loop.mono,
@@ -276,7 +276,7 @@ def execute(plan: dict) -> dict:
                 return
             if not mdl['neighbors'].get(str(i), {}).get('aro', True):
                 continue  # no Adj-RIB-Out is kept for this neighbor: the peer's table against the model is the whole judgement
-            rep = {k: (LOCAL if v[0] == 'self' else v[0], v[1]) for k, v in RW.reported_table(peer.neighbor, False).items()}
+            rep = {k: ((LOCAL if v[0] == 'self' else v[0]),) + tuple(v[1:]) for k, v in RW.reported_table(peer.neighbor, False).items()}
             if st.get('api_unknown'):
                 if rep != pv_all:
                     d = RW.diff_tables(pv_all, rep, 'peer', 'adj-rib-out')
